@@ -21,6 +21,7 @@ def main():
     a = ap.parse_args()
     seed = int(os.environ.get("VERIF_SEED", "0"))
     os.environ["VERIF_REPO"] = a.repo
+    os.environ["VERIF_TIER"] = a.tier
     os.makedirs(os.path.join(VERIF, "out"), exist_ok=True)
     if a.replay:
         from vc.runner import native_replay
